@@ -226,7 +226,9 @@ CopyAssign(t, s, fail) ==
      THEN (IF rt.ext THEN fail = 0 /\ Reject(act)
            ELSE \E hp0 \in ReleaseSet(Heap, rt) :
                   IF ~HasStore(rs) THEN fail = 0 /\ Commit([vec EXCEPT ![t] = EmptyVec], hp0, ebuf, "ok", act)
-                  ELSE IF fail = 1 THEN (Policy = "any" \/ hp0.cache[rs.dim] = {}) /\ FaultAt(hp0, t, act)
+                  ELSE IF fail = 1 THEN (Policy = "any" \/ hp0.cache[rs.dim] = {}) /\
+                                        (Commit(vec, Heap, ebuf, "bad_alloc", act)      \* allocation attempted before anything was released
+                                         \/ (Policy = "any" /\ FaultAt(hp0, t, act)))   \* or after: the target is left empty
                   ELSE fail = 0 /\ \E ch \in AllocSet(hp0, rs.dim, FALSE) :
                          Commit([vec EXCEPT ![t] = [live |-> TRUE, dim |-> rs.dim, loc |-> BlkLoc(ch.b), owns |-> TRUE, ext |-> FALSE]],
                                 [ch.hp EXCEPT !.blk[ch.b].val = ValOf(s)], ebuf, "ok", act))
@@ -342,7 +344,8 @@ AssignExpr(t, w, op, a, b, arv, brv, k, fail) ==
                /\ LET r == SetVal(hp0, ebuf, vec[s2].loc, E) IN
                   Commit([vec EXCEPT ![t] = [vec[s2] EXCEPT !.live = TRUE], ![s2] = IF vec[s2].owns THEN Consumed(vec[s2]) ELSE vec[s2]], r.hp, r.eb, "ok", act)
             \/ /\ (~CanSteal1 /\ ~CanSteal2) \/ Policy = "any"                               \* or allocate
-               /\ IF fail = 1 THEN (Policy = "any" \/ hp0.cache[d] = {}) /\ (IF w = "ctor" THEN Commit(vec, hp0, ebuf, "bad_alloc", act) ELSE FaultAt(hp0, t, act))
+               /\ IF fail = 1 THEN (Policy = "any" \/ hp0.cache[d] = {}) /\
+                                   (Commit(vec, Heap, ebuf, "bad_alloc", act) \/ (Policy = "any" /\ w # "ctor" /\ FaultAt(hp0, t, act)))
                   ELSE fail = 0 /\ \E ch \in AllocSet(hp0, d, FALSE) :
                          Commit([vec EXCEPT ![t] = [live |-> TRUE, dim |-> d, loc |-> BlkLoc(ch.b), owns |-> TRUE, ext |-> FALSE]],
                                 [ch.hp EXCEPT !.blk[ch.b].val = E], ebuf, "ok", act)
